@@ -65,11 +65,17 @@ func keepOracle(c fcfg, o fop) bool {
 	return true
 }
 
+// c16HasEncoding: operations that get a multipart body with an encoding header (see buildFilterDoc)
+func c16HasEncoding(o fop) bool {
+	return o.Schema != "" && !o.NoID && (o.Method == "POST" || o.Method == "PUT" || o.Method == "PATCH")
+}
+
 func buildFilterDoc(ops []fop, schemas []string) J {
 	paths := J{}
 	pp := false
 	viaResps := J{}
 	hdrs := J{}
+	var encs []string
 	for _, o := range ops {
 		pi := getJ(paths, o.Path)
 		resp := J{"description": "d"}
@@ -92,6 +98,13 @@ func buildFilterDoc(ops []fop, schemas []string) J {
 			resp = J{"$ref": "#/components/responses/R" + o.ID}
 		}
 		op := J{"operationId": o.ID, "responses": J{"200": resp}}
+		if c16HasEncoding(o) && schemas != nil {
+			// a multipart body whose part has a header of its own, declared under the media type's encoding: the
+			// header's schema is needed as long as the operation is
+			op["requestBody"] = J{"content": J{"multipart/form-data": J{"schema": J{"type": "object", "properties": J{"f": J{"type": "string"}}},
+				"encoding": J{"f": J{"headers": J{"X-Part": J{"schema": J{"$ref": "#/components/schemas/Enc" + o.ID}}}}}}}}
+			encs = append(encs, "Enc"+o.ID)
+		}
 		if o.NoID {
 			delete(op, "operationId")
 		}
@@ -125,6 +138,9 @@ func buildFilterDoc(ops []fop, schemas []string) J {
 				sch["properties"].(J)["next"] = J{"$ref": "#/components/schemas/" + schemas[i+1]}
 			}
 			sc[s] = sch
+		}
+		for _, e := range encs {
+			sc[e] = J{"type": "string"}
 		}
 		comps := J{"schemas": sc}
 		if pp {
@@ -234,6 +250,9 @@ func c16Generate(ctx *Ctx, ops []fop, schemas []string, cfg fcfg, fw string) err
 			if op.Schema != "" {
 				needed[op.Schema] = true
 			}
+			if c16HasEncoding(op) && schemas != nil {
+				needed["Enc"+op.ID] = true
+			}
 		}
 	}
 	// transitive closure over the S_i -> S_{i+1} chain (even i)
@@ -258,9 +277,13 @@ func c16Generate(ctx *Ctx, ops []fop, schemas []string, cfg fcfg, fw string) err
 	cms, ok := interfaceMethods(f, "ClientInterface")
 	if ok {
 		var base []string
+		seenBase := map[string]bool{}
 		for _, m := range cms {
-			if !strings.HasSuffix(m, "WithBody") {
-				base = append(base, m)
+			// an operation with a body has <Op>WithBody, and <Op> as well when a media type has a typed builder
+			b := strings.TrimSuffix(m, "WithBody")
+			if !seenBase[b] {
+				seenBase[b] = true
+				base = append(base, b)
 			}
 		}
 		sort.Strings(base)
@@ -415,6 +438,22 @@ func runC16(ctx *Ctx) error {
 						return err
 					}
 				}
+			}
+		}
+	}
+	// operation ids are compared as the document spells them: a list entry spelled like the Go name of an operation
+	// (ListPets for listPets, ListOwners for list-owners) names no operation of the document
+	spelled := func(i int) fop {
+		return fop{Path: []string{"/p", "/p", "/q"}[i], Method: []string{"GET", "POST", "GET"}[i], Tags: []string{"a"}, ID: []string{"listPets", "list-owners", "get_x"}[i]}
+	}
+	spellLists := subsets([]string{"listPets", "ListPets", "ListOwners", "list-owners", "GetX"})
+	for _, ii := range spellLists {
+		for _, ei := range spellLists {
+			if len(ii)+len(ei) > 3 {
+				continue
+			}
+			if err := c16Hook(ctx, []fop{spelled(0), spelled(1), spelled(2)}, fcfg{It: []string{}, Et: []string{}, Ii: ii, Ei: ei}); err != nil {
+				return err
 			}
 		}
 	}
